@@ -12,8 +12,8 @@ CONSTANTS
   Inter = {TRUE}
   Multis = {FALSE}
   Muts = {0, 1, 2}
-  RouteIds = {1}
-  Reconfs = {0, 2, 3, 4}
+  RouteIds = {1, 9}
+  Reconfs = {0, 2, 3, 4, 5}
   Rounds = 2
 INVARIANT TypeOK
 INVARIANT H_sane
